@@ -17,7 +17,7 @@ JOB = 'checks.jobs:history_world'
 JOB_GEN = 'checks.jobs:gen_world'
 STAGES = ['test_all', 'fisher', 'match', 'combine']
 OBS_CONFIGS = [('core_maths', 3), ('core_maths', 4), ('osc_maths', 3), ('base_e_maths', 3), ('core_maths', 2), ('ext_maths', 2), ('core_maths', 5), ('core_maths', 1),
-               ('verif_plain', 3), ('verif_plain2', 3), ('verif_plain2', 4)]
+               ('verif_plain', 3), ('verif_plain2', 3), ('verif_plain2', 4), ('base_e_maths', 4)]
 OTHER = [('ext_maths', 3), ('osc_maths', 2), ('base10_maths', 3), ('keep_duplicates', 2), ('core_maths', 5), ('base_e_maths', 2), ('ext_maths', 1),
          ('osc_maths', 4), ('base_e_maths', 3), ('keep_duplicates', 3), ('base_e_maths', 4)]
 FIT_OPTS = dict(Niter_params=[2], Nconv_params=[1])
@@ -124,6 +124,10 @@ for _cfg in (('osc_maths', 3), ('core_maths', 3)):
     # convergence count decide which optimum is reported
     DIRECTED.append(dict(cfg=_cfg, kind='fit', stage='test_all', P_obs=1, P_first=1, ipe=False, mock=False, obs_defaults=True, ops=['pipe_args:0']))
     DIRECTED.append(dict(cfg=_cfg, kind='fit', stage='test_all', P_obs=2, P_first=2, ipe=False, mock=False, obs_defaults=True, ops=['pipe_args:3', 'pipe_args:1']))
+for _cfg in (('base_e_maths', 4), ('base_e_maths', 3), ('core_maths', 4)):
+    # the observed generation is NOT preceded by a reseed: the earlier fits leave numpy's global generator in another state
+    DIRECTED.append(dict(cfg=_cfg, kind='gen', P_obs=1, P_first=1, reseed=False, ops=['pipe_same']))
+    DIRECTED.append(dict(cfg=_cfg, kind='gen', P_obs=2, P_first=2, reseed=False, ops=['gen_same_basis', 'pipe_same']))
 for _k in range(len(GEN_OPTS)):
     DIRECTED.append(dict(cfg=('core_maths', 3), kind='gen', P_obs=1, P_first=1, ops=['gen_opts:%d' % _k]))
     DIRECTED.append(dict(cfg=('core_maths', 4), kind='gen', P_obs=2, P_first=2, ops=['gen_opts:%d' % _k, 'gen_same_basis']))
@@ -362,7 +366,10 @@ def draw_history(seed, i, quick, recipe=None):
     npseed = rs % 65521
     if kind == 'gen':
         gseed = recipe.get('gen_seed', 0 if rng.random() < 0.2 else None)
-        cur().append(['npseed', dict(seed=npseed)])
+        if recipe.get('reseed', rng.random() < 0.5):
+            cur().append(['npseed', dict(seed=npseed)])
+        # otherwise the observed generation starts from whatever state the history left in numpy's global generator: generation
+        # seeds explicitly wherever it shuffles (its `seed` argument), so its files may not depend on that state
         cur().append(gen_op(runname, n, **({'seed': gseed} if gseed is not None else {})))
         observed = dict(kind='gen', runname=runname, compl=n, P=P_obs, npseed=npseed, gen_seed=gseed)
     else:
